@@ -85,11 +85,14 @@ impl EventLog {
 
 #[cfg(rip_verif)]
 fn verif_fields(event: &Event, bytes: usize) -> serde_json::Value {
-    let kind = serde_json::to_value(&event.kind)
-        .ok()
-        .and_then(|v| v.get("type").and_then(|t| t.as_str()).map(str::to_string))
+    let kind_json = serde_json::to_value(&event.kind).unwrap_or(serde_json::Value::Null);
+    let kind = kind_json
+        .get("type")
+        .and_then(|t| t.as_str())
+        .map(str::to_string)
         .unwrap_or_default();
     serde_json::json!({
+        "run": kind_json.get("run_session_id").cloned().unwrap_or(serde_json::Value::Null),
         "stream": event.stream_id(),
         "sk": event.stream_kind(),
         "seq": event.seq,
